@@ -340,6 +340,13 @@ func fixedCases() []corr.Case {
 		c = append(c, fmt.Sprintf("del 0 %d", k), "chk 0", "scan 2 asc - - all")
 	}
 	cs = append(cs, corr.Case{Tag: "fixed-clone", Lines: c})
+	// minimised replays of the mutation runs (docs/C03.md): kept as regression scripts
+	cs = append(cs,
+		corr.Case{Tag: "fixed-regress", Lines: []string{"new 2", "ins 0 12 12", "clone 0", "ins 1 6 100", "scan 0 asc - - all", "scan 1 asc - - all", "owned 0", "owned 1"}},
+		corr.Case{Tag: "fixed-regress", Lines: []string{"new 2", "ins 0 5 1", "scan 0 ascgt 5 - none", "scan 0 desclt 5 - none", "scan 0 descrange 5 4 none", "scan 0 descle 5 - all"}},
+		corr.Case{Tag: "fixed-regress", Lines: []string{"neww", "wins 3 31", "wins 4 30", "wins 5 24", "wins 7 23", "wscan lte 9 all 3", "wscan gt 2 mod3 1", "wscan lte 2 all 1000", "wupd 9 9 4", "wlen", "wscan gte 0 all 10"}},
+		corr.Case{Tag: "fixed-regress", Lines: []string{"new 2", "ins 0 1 1", "ins 0 2 2", "ins 0 3 3", "ins 0 4 4", "chk 0", "ins 0 5 5", "ins 0 6 6", "chk 0", "clone 0", "del 1 3", "chk 0", "chk 1", "scan 0 asc - - all", "del 0 1", "del 0 2", "chk 0", "len 0", "scan 1 asc - - all"}},
+	)
 	return cs
 }
 
@@ -354,7 +361,7 @@ func spec() corr.Spec {
 			case "thorough":
 				return 60000
 			}
-			return 100000
+			return 30000
 		},
 		Gen: func(r *rng.R, tier string, i int) corr.Case {
 			switch x := r.Intn(20); {
@@ -369,7 +376,7 @@ func spec() corr.Spec {
 			}
 			return genMalformed(r)
 		},
-		Run: runCase,
+		Run: runIsolated,
 		TOnly: func(line string) bool {
 			return strings.HasPrefix(line, "owned ") || strings.HasPrefix(line, "cons ")
 		},
